@@ -126,12 +126,14 @@ class Circuit:
             self._P[k] = v
         for gate,_ in self.gate_index_list:
             if hasattr(gate, 'args') and isinstance(gate.args, _ParameterHolder):
-                tmp0 = gate.args.resolve()
+                holder = gate.args
+                tmp0 = holder.resolve()
                 if hasattr(tmp0, '__len__'):
                     array = gate.hf0(*tmp0)
                 else:
                     array = gate.hf0(tmp0)
                 gate.set_args(tmp0, array)
+                gate.args = holder #keep the placeholder, otherwise the next setP call skips this gate
 
     def append_gate(self, gate:Gate, index:int|tuple[int]):
         r'''append a gate to the circuit. Trainable parameters are re-used.
